@@ -4,6 +4,7 @@ import (
 	"errors"
 	"fmt"
 	"log"
+	"math"
 	"os"
 	"path/filepath"
 	"sort"
@@ -200,8 +201,10 @@ func (db *DB) replayAndSetupWriteAheadLog() error {
 	}
 
 	walOpts, err := wal.NewWriteAheadLogOptions(wal.BasePath(walBasePath),
-		// we do manual rotation in lockstep with the memstore flushes, thus just set this super high to not trigger
-		wal.MaximumWalFileSizeBytes(db.memstoreMaxSize*100),
+		// we do manual rotation in lockstep with the memstore flushes, so the size based rotation must never trigger:
+		// the flusher only removes the file handed over by the manual rotation, any other file would stay behind and
+		// be replayed on top of newer data by a later recovery
+		wal.MaximumWalFileSizeBytes(math.MaxUint64),
 		wal.WriterFactory(func(path string) (recordio.WriterI, error) {
 			return recordio.NewFileWriter(append(writerOpts, recordio.Path(path))...)
 		}),
